@@ -308,16 +308,79 @@ pub fn check(id: &str, tier: Tier) -> i32 {
     }
     bounds.push(json!({"kind": "regression harnesses (S13)", "threads": 3, "preemption_bound": 3, "harnesses": 5}));
   }
+  // ---- executions that are not sequentially consistent: up to `stale` loads read an older message their thread's
+  // view still allows (release/acquire view model in hb.rs), on top of the preemption bound; and everywhere: up to
+  // `spur` weak compare-exchanges that would succeed fail spuriously
+  let spur: u8 = if thorough { 2 } else { 1 };
+  let mut witems: Vec<(Harness, u8, u8)> = vec![];
+  {
+    use TOp::*;
+    let (wb, ws) = if thorough { (3u8, 2u8) } else { (2, 1) };
+    if id != "C13" {
+      let wmenu: Vec<P> = if id == "C07" { vec![P::B16, P::B16D, P::Dp, P::DpB16, P::Disc, P::B24D] } else { vec![P::B16, P::U64, P::B16D, P::Dp, P::DpB16, P::B24D] };
+      let mut count = 0;
+      for fl in [Fl::Optimistic, Fl::Pessimistic] {
+        for shape in [3u8, 11] {
+          for tu in tuples(&wmenu, 2) {
+            let progs: Vec<Vec<TOp>> = tu.iter().enumerate().map(|(t, p)| prog(*p, t)).collect();
+            witems.push((Harness { fl, unify: true, min_seg: 8, cap: 256, shape, progs, own_arenas: false, leave: 0, odd: 0, reserved: 0 }, wb, ws));
+            count += 1;
+          }
+        }
+        // fresh space left: the bump cursor and the top release
+        for tu in tuples(&[P::B16, P::U64, P::B16D, P::AB8], 2) {
+          let progs: Vec<Vec<TOp>> = tu.iter().enumerate().map(|(t, p)| prog(*p, t)).collect();
+          witems.push((Harness { fl, unify: true, min_seg: 8, cap: 256, shape: 3, progs, own_arenas: false, leave: 48, odd: 3, reserved: 0 }, wb + 1, ws + 1));
+          count += 1;
+        }
+        if thorough {
+          for tu in tuples(&[P::B16, P::B16D, P::Dp], 3) {
+            let progs: Vec<Vec<TOp>> = tu.iter().enumerate().map(|(t, p)| prog(*p, t)).collect();
+            witems.push((Harness { fl, unify: true, min_seg: 8, cap: 256, shape: 3, progs, own_arenas: false, leave: 0, odd: 0, reserved: 0 }, 2, 1));
+            count += 1;
+          }
+        }
+      }
+      bounds.push(json!({"kind": "non-SC executions: alloc/release pairs (thorough: and triples)", "preemption_bound": wb, "stale_reads": ws, "spurious_weak_cas_failures": spur, "harnesses": count}));
+    }
+    if id == "C12" || id == "C13" {
+      let menu: Vec<Vec<TOp>> = vec![vec![CloneArena, DropArena], vec![BO(16), DropOwn], vec![B(16), DropOwn, DropArena], vec![DropArena], vec![BO(24), DropArena, DropOwn]];
+      let mut count = 0;
+      for i in 0..menu.len() {
+        for j in i..menu.len() {
+          witems.push((Harness { fl: Fl::Optimistic, unify: true, min_seg: 8, cap: 256, shape: 3, progs: vec![menu[i].clone(), menu[j].clone()], own_arenas: true, leave: 0, odd: 0, reserved: 0 }, wb, ws));
+          witems.push((Harness { fl: Fl::None, unify: false, min_seg: 8, cap: 225, shape: 0, progs: vec![menu[i].clone(), menu[j].clone()], own_arenas: true, leave: 64, odd: 0, reserved: 0 }, wb, ws));
+          count += 2;
+        }
+      }
+      bounds.push(json!({"kind": "non-SC executions: clone/drop programs", "preemption_bound": wb, "stale_reads": ws, "harnesses": count}));
+    }
+  }
   let execs = AtomicU64::new(0);
   let events = AtomicU64::new(0);
   let capped = AtomicU64::new(0);
   let maxop = AtomicU64::new(0);
   let max_execs = if thorough { 30_000_000 } else { 3_000_000 };
+  let wexecs = AtomicU64::new(0);
+  par_for_each(&witems, |_, (h, bound, stale)| {
+    if run.stopped() {
+      return;
+    }
+    let xc = ExploreCfg { bound: *bound, hb: true, drain: id == "C02" || id == "C07", prop_of, max_execs, cache: false, stale: *stale, spur };
+    let st = explore(&run, h, &xc, id);
+    execs.fetch_add(st.execs, Ordering::Relaxed);
+    wexecs.fetch_add(st.execs, Ordering::Relaxed);
+    events.fetch_add(st.events, Ordering::Relaxed);
+    if st.capped {
+      capped.fetch_add(1, Ordering::Relaxed);
+    }
+  });
+  run.set("non_sc_executions", json!(wexecs.load(Ordering::Relaxed)));
   par_for_each(&items, |_, (h, bound)| {
     if run.stopped() {
       return;
     }
-    let xc = ExploreCfg { bound: *bound, hb, drain: id == "C02" || id == "C07", prop_of, max_execs, cache: false };
+    let xc = ExploreCfg { bound: *bound, hb, drain: id == "C02" || id == "C07", prop_of, max_execs, cache: false, stale: 0, spur };
     let st = explore(&run, h, &xc, id);
     execs.fetch_add(st.execs, Ordering::Relaxed);
     events.fetch_add(st.events, Ordering::Relaxed);
@@ -337,7 +400,7 @@ pub fn check(id: &str, tier: Tier) -> i32 {
   run.set("harnesses", json!(items.len()));
   run.set("bounds", json!({"preemption_bounds_completed": bounds, "event_cap_per_execution": EVENT_CAP, "solo_budget": SOLO_BUDGET, "max_events_of_one_operation": maxop.load(Ordering::Relaxed)}));
   run.rule("every schedule (switch points = the arena's atomic accesses and Backoff::snooze) with at most the stated number of preemptions, for every harness = (free-list kind, layout, initial free-list shape, program tuple up to thread symmetry); evaluations = schedules executed on the real sync::Arena; transitions = scheduling events; states = distinct (memory image, header, per-thread progress, running thread) at choice points (scheduling points with more than one enabled thread); non-trivial = at least one switch inside an operation, distinct by (harness, final image)");
-  run.assume("sequentially consistent interleavings only; spurious compare_exchange_weak failures not injected");
+  run.assume("main passes: sequentially consistent interleavings; non-SC pass: release/acquire view model (stores append to the modification order, loads may read any message their view allows, read-modify-writes read the newest, no load buffering), at most the stated number of stale reads per execution; spurious compare_exchange_weak failures injected up to the stated number per execution");
   run.assume("Backoff replaced by a reporting shim; snooze treated as a voluntary yield; a thread is parked only after a loop iteration that overlapped no memory-changing access");
   run.finish()
 }
@@ -358,7 +421,7 @@ pub fn calib() -> i32 {
       }
       let h = Harness { fl: Fl::Optimistic, unify: true, min_seg: 8, cap: 256, shape: 3, progs: progs.clone(), own_arenas: false, leave: 0, odd: 0, reserved: 0 };
       let t0 = std::time::Instant::now();
-      let xc = ExploreCfg { bound, hb: false, drain: true, prop_of: prop_c02, max_execs: 50_000_000, cache: std::env::var("CALIB_CACHE").is_ok() };
+      let xc = ExploreCfg { bound, hb: false, drain: true, prop_of: prop_c02, max_execs: 50_000_000, cache: std::env::var("CALIB_CACHE").is_ok(), stale: 0, spur: 0 };
       let st = explore(&run, &h, &xc, "calib");
       println!("{:24} bound {:3}: {:>10} schedules {:>12} events {:.2}s max_choice_points {} states {} pruned {}", name, bound, st.execs, st.events, t0.elapsed().as_secs_f64(), st.max_choices, st.states, st.pruned);
       if t0.elapsed().as_secs_f64() > 60.0 {
@@ -367,6 +430,38 @@ pub fn calib() -> i32 {
     }
   }
   0
+}
+
+fn prop_any(class: &str) -> Option<&'static str> {
+  match class {
+    "machinery" => None,
+    _ => Some("C12"),
+  }
+}
+
+/// calibration helper for the non-SC deviations: schedule counts per (preemptions, stale reads, spurious failures)
+pub fn calibw() -> i32 {
+  let run = Run::new("CALIBW", Tier::Quick, "model_checking");
+  use TOp::*;
+  for (name, fl, shape, leave, progs) in [
+    ("B16 || B16,D", Fl::Optimistic, 3u8, 0u32, vec![prog(P::B16, 0), prog(P::B16D, 1)]),
+    ("B16 || B16,D pess", Fl::Pessimistic, 11, 0, vec![prog(P::B16, 0), prog(P::B16D, 1)]),
+    ("B16,B16 || Dp,B16", Fl::Optimistic, 3, 0, vec![prog(P::B16B16, 1), prog(P::DpB16, 0)]),
+    ("B16 || U64 fresh", Fl::Optimistic, 3, 48, vec![vec![B(16)], vec![U64]]),
+    ("B16 || B16 || Dp", Fl::Optimistic, 3, 0, vec![prog(P::B16, 1), prog(P::B16, 2), prog(P::Dp, 0)]),
+  ] {
+    for (bound, stale, spur) in [(2u8, 0u8, 0u8), (2, 1, 0), (2, 2, 0), (3, 1, 0), (2, 0, 1), (2, 0, 2), (2, 1, 1), (3, 2, 1)] {
+      let h = Harness { fl, unify: true, min_seg: 8, cap: 256, shape, progs: progs.clone(), own_arenas: false, leave, odd: 0, reserved: 0 };
+      let t0 = std::time::Instant::now();
+      let xc = ExploreCfg { bound, hb: true, drain: true, prop_of: prop_any, max_execs: 20_000_000, cache: false, stale, spur };
+      let st = explore(&run, &h, &xc, "calibw");
+      println!("{:24} bound {} stale {} spur {}: {:>10} schedules {:>12} events {:.2}s max_choice_points {}", name, bound, stale, spur, st.execs, st.events, t0.elapsed().as_secs_f64(), st.max_choices);
+      if t0.elapsed().as_secs_f64() > 60.0 {
+        break;
+      }
+    }
+  }
+  run.finish()
 }
 
 fn prop_c03(class: &str) -> Option<&'static str> {
@@ -402,7 +497,7 @@ pub fn c03_concurrent(run: &Run, thorough: bool) {
   let execs = AtomicU64::new(0);
   let events = AtomicU64::new(0);
   par_for_each(&items, |_, (h, bound)| {
-    let xc = ExploreCfg { bound: *bound, hb: false, drain: false, prop_of: prop_c03, max_execs: 5_000_000, cache: false };
+    let xc = ExploreCfg { bound: *bound, hb: false, drain: false, prop_of: prop_c03, max_execs: 5_000_000, cache: false, stale: 0, spur: if thorough { 2 } else { 1 } };
     let st = explore(run, h, &xc, "C03");
     execs.fetch_add(st.execs, Ordering::Relaxed);
     events.fetch_add(st.events, Ordering::Relaxed);
@@ -443,7 +538,7 @@ pub fn c04_concurrent(run: &Run, thorough: bool) {
   let execs = AtomicU64::new(0);
   let events = AtomicU64::new(0);
   par_for_each(&items, |_, (h, bound)| {
-    let xc = ExploreCfg { bound: *bound, hb: false, drain: false, prop_of: prop_c04, max_execs: 5_000_000, cache: false };
+    let xc = ExploreCfg { bound: *bound, hb: false, drain: false, prop_of: prop_c04, max_execs: 5_000_000, cache: false, stale: 0, spur: if thorough { 2 } else { 1 } };
     let st = explore(run, h, &xc, "C04");
     execs.fetch_add(st.execs, Ordering::Relaxed);
     events.fetch_add(st.events, Ordering::Relaxed);
@@ -484,7 +579,7 @@ pub fn c15_concurrent(run: &Run, thorough: bool) {
   let execs = AtomicU64::new(0);
   let events = AtomicU64::new(0);
   par_for_each(&items, |_, (h, bound)| {
-    let xc = ExploreCfg { bound: *bound, hb: false, drain: false, prop_of: prop_c15, max_execs: 5_000_000, cache: false };
+    let xc = ExploreCfg { bound: *bound, hb: false, drain: false, prop_of: prop_c15, max_execs: 5_000_000, cache: false, stale: 0, spur: if thorough { 2 } else { 1 } };
     let st = explore(run, h, &xc, "C15");
     execs.fetch_add(st.execs, Ordering::Relaxed);
     events.fetch_add(st.events, Ordering::Relaxed);
@@ -525,7 +620,7 @@ pub fn c08_concurrent(run: &Run, thorough: bool) {
   let execs = AtomicU64::new(0);
   let events = AtomicU64::new(0);
   par_for_each(&items, |_, (h, bound)| {
-    let xc = ExploreCfg { bound: *bound, hb: false, drain: false, prop_of: prop_c08, max_execs: 5_000_000, cache: false };
+    let xc = ExploreCfg { bound: *bound, hb: false, drain: false, prop_of: prop_c08, max_execs: 5_000_000, cache: false, stale: 0, spur: if thorough { 2 } else { 1 } };
     let st = explore(run, h, &xc, "C08");
     execs.fetch_add(st.execs, Ordering::Relaxed);
     events.fetch_add(st.events, Ordering::Relaxed);
